@@ -253,4 +253,7 @@ def main(tier='quick', seed=0):
     assumptions.extend(sorted(lib))
     extra = dict(functions_under_contract=[c.name for c in impls], paths=paths, inlined_callees=sorted(inlined),
                  lemmas=list(lemmas(w)), explanation='every obligation is generated from the ast of /repo/depccg/cat.py on this run')
-    return engine.finish(PROP, tier, seed, t0, records, errors, extra, assumptions)
+    assumptions.append('bounded stand-in (labelled bounded, never counted as proved; it turns an obligation the verifier cannot decide into a violation only with a concrete value): '
+                       'bounded/c13_real.py compares ==, hash, ^, text comparison and clear_features of the real classes with field-level twins on constructor-built categories of both feature systems')
+    from props import c12
+    return c12.finish_with(PROP, tier, seed, t0, records, errors, extra, assumptions, ['c13_real.py'], level='proof')
